@@ -31,6 +31,7 @@ def check(run, model, tier):
     queues.check_post_ends(run, model, 'ENDS.post', E)
     queues.check_next_rtc(run, model, 'CONSUMER.next_rtc', E)
     queues.check_complete_circuit(run, model, 'CONSUMER.circuit')
+    queues.check_dispatch_sites(run, model, 'CONSUMER.next_rtc', E)
     cg = callgraph(model)
     hq = model.cls('HsmWithQueues')
     disp = set()
